@@ -286,9 +286,63 @@ Proof.
   intros a H. destruct a; cbn [rsqrt] in *; try (cbn [rad_ok] in *; tauto).
 Qed.
 
+Lemma cbrt_exact_sound : forall q t, cbrt_exact q = Some t -> (t * t * t == q)%Q.
+Proof.
+  intros [n d] t. unfold cbrt_exact. cbn [Qnum Qden].
+  destruct (0 <? n)%Z; [|discriminate].
+  set (a := icbrt n). set (b := icbrt (Zpos d)).
+  destruct ((a * a * a =? n)%Z && (b * b * b =? Zpos d)%Z && (0 <? b)%Z) eqn:E; [|discriminate].
+  apply andb_prop in E. destruct E as [E Eb]. apply andb_prop in E. destruct E as [Ea Ed].
+  apply Z.eqb_eq in Ea. apply Z.eqb_eq in Ed. apply Z.ltb_lt in Eb.
+  intro H. injection H as <-.
+  transitivity ((a # Z.to_pos b) * (a # Z.to_pos b) * (a # Z.to_pos b))%Q.
+  { apply Qmult_comp; [apply Qmult_comp|]; exact (Qred_correct (a # Z.to_pos b)). }
+  unfold Qeq, Qmult. cbn [Qnum Qden]. rewrite !Pos2Z.inj_mul, Z2Pos.id by exact Eb.
+  rewrite Ea, Ed. ring.
+Qed.
+
 Lemma rcbrt_cube : forall a, rad_ok (rcbrt a) ->
   eval (rcbrt a) * eval (rcbrt a) * eval (rcbrt a) = eval a.
-Proof. intros a H. cbn [rcbrt rad_ok eval] in *. tauto. Qed.
+Proof.
+  intros a H. destruct a; cbn [rcbrt] in *; try (cbn [rad_ok eval] in *; tauto).
+  destruct (cbrt_exact q) as [t|] eqn:E.
+  - cbn [eval]. rewrite <- !ofQ_mul. apply ofQ_Qeq. apply cbrt_exact_sound. exact E.
+  - cbn [rad_ok eval] in *. tauto.
+Qed.
+
+Lemma rad_ok_rcbrt : forall a, rad_ok (rcbrt a) -> rad_ok a.
+Proof.
+  intros a H. destruct a; cbn [rcbrt] in *; try (cbn [rad_ok] in *; tauto).
+Qed.
+
+Lemma eval_radd4 : forall a b c d, eval (radd4 a b c d) = eval a + eval b + eval c + eval d.
+Proof.
+  intros a b c d. unfold radd4.
+  destruct a; try reflexivity. destruct b; try reflexivity. destruct c; try reflexivity.
+  destruct d; try reflexivity. rewrite eval_rq. cbn [eval]. rewrite !ofQ_add. reflexivity.
+Qed.
+
+Lemma eval_rmul3 : forall a b c, eval (rmul3 a b c) = eval a * eval b * eval c.
+Proof.
+  intros a b c. unfold rmul3.
+  destruct a; try reflexivity. destruct b; try reflexivity. destruct c; try reflexivity.
+  rewrite eval_rq. cbn [eval]. rewrite !ofQ_mul. reflexivity.
+Qed.
+
+Lemma rad_ok_radd4 : forall a b c d,
+  rad_ok (radd4 a b c d) <-> rad_ok a /\ rad_ok b /\ rad_ok c /\ rad_ok d.
+Proof.
+  intros a b c d. unfold radd4.
+  destruct a; try (cbn [rad_ok]; tauto). destruct b; try (cbn [rad_ok]; tauto).
+  destruct c; try (cbn [rad_ok]; tauto). destruct d; cbn [rad_ok rq]; tauto.
+Qed.
+
+Lemma rad_ok_rmul3 : forall a b c, rad_ok (rmul3 a b c) <-> rad_ok a /\ rad_ok b /\ rad_ok c.
+Proof.
+  intros a b c. unfold rmul3.
+  destruct a; try (cbn [rad_ok]; tauto). destruct b; try (cbn [rad_ok]; tauto).
+  destruct c; cbn [rad_ok rq]; tauto.
+Qed.
 
 (* sets *)
 Lemma set_mem_eval : forall x l, set_mem x l = true -> exists y, In y l /\ eval x = eval y.
@@ -545,5 +599,148 @@ Proof.
   field_simplify_eq; [|solve_nz].
   nsatz'.
 Qed.
+
+(* ---------------------------------------------------------------- helpers *)
+Lemma ofQ_int : forall z, ofQ (z # 1) = ofZ z.
+Proof. intro z. exact (ofQ_inject_Z z). Qed.
+
+Lemma rx_eqb_rad_ok : forall a b, rx_eqb a b = true -> (rad_ok a <-> rad_ok b).
+Proof.
+  induction a; destruct b; cbn [rx_eqb]; intro H; try discriminate; cbn [rad_ok];
+    repeat match goal with
+           | H : _ && _ = true |- _ => apply andb_prop in H; destruct H
+           end; try tauto.
+  - apply IHa; assumption.
+  - rewrite (IHa1 _ H), (IHa2 _ H0). tauto.
+  - rewrite (IHa1 _ H), (IHa2 _ H0). tauto.
+  - rewrite (IHa1 _ H), (IHa2 _ H0). tauto.
+  - rewrite (IHa1 _ H), (IHa2 _ H0). tauto.
+  - rewrite (IHa _ H). cbn [eval]. rewrite (rx_eqb_eval _ _ H). tauto.
+  - rewrite (IHa _ H). cbn [eval]. rewrite (rx_eqb_eval _ _ H). tauto.
+  - rewrite (IHa1 _ H), (IHa2 _ H2), (IHa3 _ H1), (IHa4 _ H0). tauto.
+  - rewrite (IHa1 _ H), (IHa2 _ H1), (IHa3 _ H0). tauto.
+Qed.
+
+Ltac qnz := first [ assumption
+                  | let X := fresh in intro X; unfold Qeq in X; cbn in X; lia ].
+
+Ltac pushQ :=
+  repeat (rewrite ?ofQ_add, ?ofQ_mul, ?ofQ_sub, ?ofQ_opp, ?ofQ_int, ?ofZ_1, ?ofZ_0;
+          try (rewrite ofQ_div by qnz)).
+
+(* a perfect square times a square is a square only if ... : completeness of sqrt_exact *)
+Lemma Zsquare_factor : forall m k b : Z, (0 < b)%Z -> (m * (b * b) = k * k)%Z -> exists j, (m = j * j)%Z.
+Proof.
+  intros m k b Hb H.
+  set (g := Z.gcd k b).
+  assert (Hg : (g <> 0)%Z) by (unfold g; intro E; apply Z.gcd_eq_0_r in E; lia).
+  assert (Hg0 : (0 < g)%Z) by (pose proof (Z.gcd_nonneg k b); unfold g in *; lia).
+  destruct (Z.gcd_divide_l k b) as [k' Hk]. destruct (Z.gcd_divide_r k b) as [b' Hb'].
+  fold g in Hk, Hb'.
+  assert (Hcop : Z.gcd k' b' = 1%Z).
+  { pose proof (Z.gcd_div_gcd k b g Hg eq_refl) as X.
+    assert (X1 : (k / g = k')%Z) by (rewrite Hk; apply Z.div_mul; exact Hg).
+    assert (X2 : (b / g = b')%Z) by (rewrite Hb'; apply Z.div_mul; exact Hg).
+    rewrite X1, X2 in X. exact X. }
+  assert (E : (m * (b' * b') = k' * k')%Z).
+  { apply (Z.mul_reg_r _ _ (g * g)); [nia|]. rewrite Hk, Hb' in H. nia. }
+  assert (D : (b' | k')%Z).
+  { apply (Z.gauss b' k' k'); [exists (m * b')%Z; lia | rewrite Z.gcd_comm; exact Hcop]. }
+  assert (D1 : (b' | 1)%Z).
+  { rewrite <- Hcop. apply Z.gcd_greatest; [exact D | apply Z.divide_refl]. }
+  apply Z.divide_1_r in D1.
+  exists k'. destruct D1 as [-> | ->]; lia.
+Qed.
+
+Lemma sqrt_exact_complete : forall q r : Q, (r * r == q)%Q -> sqrt_exact q <> None.
+Proof.
+  intros [n d] [a b] H. unfold Qeq, Qmult in H. cbn [Qnum Qden] in H.
+  unfold sqrt_exact. cbn [Qnum Qden].
+  assert (E : (n * Zpos d * (Zpos b * Zpos b) = (a * Zpos d) * (a * Zpos d))%Z).
+  { rewrite Pos2Z.inj_mul in H. nia. }
+  destruct (Zsquare_factor _ _ _ (Pos2Z.is_pos b) E) as [j Hj].
+  rewrite Hj.
+  assert (Hn : (j * j <? 0)%Z = false) by (apply Z.ltb_ge; nia).
+  rewrite Hn.
+  assert (Hs : (Z.sqrt (j * j) * Z.sqrt (j * j) =? j * j)%Z = true).
+  { apply Z.eqb_eq. replace (j * j)%Z with (Z.abs j * Z.abs j)%Z by nia.
+    rewrite Z.sqrt_square by apply Z.abs_nonneg. reflexivity. }
+  rewrite Hs. discriminate.
+Qed.
+
+(* an unfolded square root of a rational is not rational *)
+Lemma rsqrt_unfolded_irrational : forall q r,
+  sqrt_exact q = None -> fsqrt (ofQ q) * fsqrt (ofQ q) = ofQ q -> fsqrt (ofQ q) <> ofQ r.
+Proof.
+  intros q r Hn Hs E. apply (sqrt_exact_complete q r); [|exact Hn].
+  apply ofQ_inj. rewrite ofQ_mul, <- E. exact Hs.
+Qed.
+
+(* ---------------------------------------------------------------- polynomials *)
+Fixpoint peval (cs : list Q) (x : F) : F :=
+  match cs with
+  | [] => 0
+  | c :: r => ofQ c + x * peval r x
+  end.
+
+(* ---------------------------------------------------------------- linear *)
+Theorem linear_exact : forall c0 c1, ~ (c1 == 0)%Q ->
+  exists r, solve_poly_linear [c0; c1] = Ok [r] /\
+            forall x, peval [c0; c1] x = 0 <-> x = eval r.
+Proof.
+  intros c0 c1 H1. eexists. split; [reflexivity|].
+  intro x. cbn [peval]. rewrite eval_rneg, eval_rdiv, !eval_rq by (rewrite eval_rq; apply ofQ_neq0; exact H1).
+  pose proof (ofQ_neq0 _ H1) as N1.
+  split; intro H.
+  - assert (E : x = - (ofQ c0) / ofQ c1).
+    { transitivity ((ofQ c0 + x * (ofQ c1 + x * 0) - ofQ c0) / ofQ c1); [field; exact N1|]. rewrite H. field. exact N1. }
+    rewrite E. field. exact N1.
+  - rewrite H. field. exact N1.
+Qed.
+
+(* ---------------------------------------------------------------- quadratic *)
+(* DEV *)
+Lemma quadratic_vieta : forall c0 c1 c2, ~ (c2 == 0)%Q ->
+  let rr := quadratic_roots c0 c1 c2 in
+  rad_ok (fst rr) -> rad_ok (snd rr) ->
+  eval (fst rr) + eval (snd rr) = - (ofQ c1 / ofQ c2) /\ eval (fst rr) * eval (snd rr) = ofQ c0 / ofQ c2.
+Proof.
+  intros c0 c1 c2 H2 rr. subst rr. unfold quadratic_roots. cbv zeta.
+  pose proof (ofQ_neq0 _ H2) as N2. pose proof two_neq0 as T2.
+  assert (EB : ofQ (c1 / c2) = ofQ c1 / ofQ c2) by (apply ofQ_div; exact H2).
+  assert (EC : ofQ (c0 / c2) = ofQ c0 / ofQ c2) by (apply ofQ_div; exact H2).
+  destruct (is0 (c0 / c2)) eqn:Ec; [|destruct (is0 (c1 / c2)) eqn:Eb]; cbn [fst snd]; intros O1 O2.
+  - rewrite !eval_rq. rewrite ofQ_opp, ofQ_0, EB.
+    apply is0_true in Ec. apply ofQ_eq0 in Ec. rewrite EC in Ec. rewrite Ec.
+    split; ring.
+  - apply is0_true in Eb. apply ofQ_eq0 in Eb. rewrite EB in Eb.
+    rewrite eval_rneg. pose proof (rsqrt_sq _ O1) as S. rewrite eval_rq, ofQ_opp, EC in S.
+    set (s := eval (rsqrt (rq (- (c0 / c2))))) in *. clearbody s.
+    rewrite Eb. split; [ring|].
+    transitivity (- (s * s)); [ring|]. rewrite S. ring.
+  - apply rad_ok_radd in O1. destruct O1 as [_ O1]. apply rad_ok_rdiv in O1. destruct O1 as [O1 _].
+    pose proof (rsqrt_sq _ O1) as S. rewrite eval_rq in S.
+    assert (N : eval (rq 2) <> 0) by (rewrite eval_rq, ofQ_int; exact T2).
+    rewrite eval_radd, eval_rsub, !eval_rdiv, !eval_rq by exact N.
+    set (s := eval (rsqrt (rq (c1 / c2 * (c1 / c2) - 4 * (c0 / c2))))) in *. clearbody s.
+    revert S. pushQ. rewrite ?EB, ?EC.
+    set (B := ofQ c1 / ofQ c2). set (C := ofQ c0 / ofQ c2). clearbody B C. intro S.
+    numerals.
+    split; (field_simplify_eq; [|exact T2]); nsatz'.
+Qed.
+
+Theorem quadratic_factor : forall c0 c1 c2, ~ (c2 == 0)%Q ->
+  let rr := quadratic_roots c0 c1 c2 in
+  rad_ok (fst rr) -> rad_ok (snd rr) ->
+  forall x, peval [c0; c1; c2] x = ofQ c2 * (x - eval (fst rr)) * (x - eval (snd rr)).
+Proof.
+  intros c0 c1 c2 H2 rr O1 O2 x.
+  destruct (quadratic_vieta _ _ _ H2 O1 O2) as [V1 V2]. fold rr in V1, V2.
+  pose proof (ofQ_neq0 _ H2) as N2. cbn [peval].
+  assert (E1 : ofQ c1 = - (ofQ c2 * (eval (fst rr) + eval (snd rr)))) by (rewrite V1; field; exact N2).
+  assert (E0 : ofQ c0 = ofQ c2 * (eval (fst rr) * eval (snd rr))) by (rewrite V2; field; exact N2).
+  rewrite E1, E0. ring.
+Qed.
+
 
 End Sem.
